@@ -67,7 +67,21 @@ def cases(tier, rng):
         ops += ["recv", "recv"]
         out.append("r%d sock ROUTER / %s" % (k, " / ".join(ops)))
         k += 1
+    # a peer leaves and a new connection announces the same identity: routing follows the connected one
+    for idl in (1, 16, 255):
+        ident = W.tok(b"J" * idl)
+        for leave in ("eof", "cut"):
+            ops = ["attach a DEALER id=" + ident, "feed a " + W.tok(W.msg([b"one"])), "recv"]
+            ops += ["eof a"] if leave == "eof" else ["feed a 0009aa", "eof a"]
+            ops += ["recv", "attach b DEALER id=" + ident, "send %s;6869" % ident, "wire a", "wire b",
+                    "feed b " + W.tok(W.msg([b"two"])), "recv", "send %s;796f" % ident, "wire a", "wire b"]
+            out.append("j%d sock ROUTER / %s" % (k, " / ".join(ops)))
+            k += 1
     return out
+
+
+def compare_filter(line):
+    return not line.startswith("j")      # the model assumes distinct identities
 
 
 def norm_impl(o, line):
@@ -78,6 +92,26 @@ def judge(line, obs, orc):
     if S.bad_obs(obs):
         return "implementation " + str(obs)[:80]
     t, po = S.pair_ops_obs(line, obs)
+    if line.startswith("j"):
+        # after b registered under the identity, every successful send to it is written to b and nothing to a
+        seen_b = False
+        i = 0
+        while i < len(po):
+            op, tk = po[i]
+            if op[0] == "attach" and op[1] == "b":
+                seen_b = True
+            if op[0] == "send" and seen_b:
+                w = {po[i + 1][0][1]: po[i + 1][1].split("=", 1)[1], po[i + 2][0][1]: po[i + 2][1].split("=", 1)[1]}
+                rest = S.frames_of_tok(op[1].split(";", 1)[1])
+                if tk != "s=ok" or w["b"] != S.enc(rest) or w["a"] != "-":
+                    return "message for the identity of the connected peer b: %s, wire a=%s wire b=%s" % (tk, w["a"][:40], w["b"][:40])
+                i += 3
+                continue
+            i += 1
+        rb = [tk for op, tk in po if op[0] == "recv"]
+        if not any(r.endswith(";" + W.tok(b"two")) for r in rb):
+            return "message of the re-connected peer was not delivered: %s" % rb
+        return None
     ann = {}
     fed = {}
     queue = {}
